@@ -494,6 +494,9 @@ def run(scn, prop=None):
         info = collect_info(r)
         info['counters'] = {'tr:%s' % tr: 1, 'disp:%s' % scn.get('disp'): 1, 'nops': len(scn['ops']),
                             'enum:%s' % scn.get('enum'): 1}
+        if tr == 'popen':
+            # the piped-subprocess transport is in C09's quantifier only (C10 lists pty, fd, socket)
+            out = [v for v in out if v.clause.startswith('C09')]
         if prop is not None:
             out = [v for v in out if v.clause.startswith(prop)]
         return out, info
